@@ -126,9 +126,10 @@ pub fn wild_layout(n: usize, nx: usize, rng: &mut Rng, sparse: bool, max_files: 
             while files.iter().any(|f| f.number == k) {
                 k += 1;
             }
-            if rng.coin() {
+            let name = format!("blk{:05}.dat", k + is_dir as u64);
+            if rng.coin() && !extra_files.iter().any(|e: &ExtraFile| e.name == name) && !files.iter().any(|f| f.number == k + is_dir as u64) {
                 extra_files.push(ExtraFile {
-                    name: format!("blk{:05}.dat", k + is_dir as u64),
+                    name,
                     bytes: Bytes(rng.bytes_range(0, 200)),
                     is_dir,
                 });
@@ -221,6 +222,7 @@ impl Prop for C03 {
             r.threads = 2;
             r.start = if scn.base_height > 0 { Some(scn.base_height) } else { None };
             r.plan.chunk_blk = if rng.chance(3, 4) { random_chunks(rng) } else { vec![] };
+            fit_chunks(&mut r.plan, chain_bytes(&scn.chain), 150_000);
             scn.runs.push(r);
         }
         h.check(&mut scn)?;
@@ -343,6 +345,7 @@ impl Prop for C11 {
             if rng.chance(1, 4) {
                 r.plan.chunk_xor = vec![rng.usize(1, 9)];
             }
+            fit_chunks(&mut r.plan, chain_bytes(&scn.chain), 150_000);
             scn.runs.push(r);
         }
         h.check(&mut scn)?;
